@@ -108,7 +108,7 @@ pub const SPELLINGS: [&str; 97] = [
     "LABEL @a\nJUMP-WHEN @a ro[0]\nJUMP-UNLESS @b-2 ro\nJUMP @a\nHALT\nNOP\nWAIT\nINCLUDE \"f.quil\"",
 ];
 
-pub const DEFINITIONS: [&str; 16] = [
+pub const DEFINITIONS: [&str; 17] = [
     "DEFCAL RX(%theta) q:\n\tPULSE q \"rf\" gaussian(duration: 1e-6, fwhm: 2.5e-7, t0: 5e-7, scale: %theta/pi)\n\tSHIFT-PHASE q \"rf\" -%theta",
     "DEFCAL DAGGER CONTROLLED X 0 q:\n    FENCE 0 q\n    NOP",
     "DEFCAL RX(pi/2) 0:\n    DELAY 0 \"rf\" 1e-7",
@@ -119,6 +119,7 @@ pub const DEFINITIONS: [&str; 16] = [
     "DEFGATE PHASE(%a):\n    1, 0\n    0, cis(%a)",
     "DEFGATE P AS PERMUTATION:\n    0, 1, 3, 2",
     "DEFGATE S(%a) p q AS PAULI-SUM:\n    ZZ(-%a/4) p q\n    Z(%a/4) p\n    X(1) q",
+    "DEFGATE T3(%a) p q r AS PAULI-SUM:\n    XZ(%a) q p\n    XYZ(1.5) r p q\n    YX(-1) r q",
     "DEFGATE seq(%t) a b AS SEQUENCE:\n    RX(%t) a\n    CNOT a b\n    DAGGER RZ(-%t/2) b",
     "DEFCIRCUIT BELL a b:\n    H a\n    CNOT a b",
     "DEFCIRCUIT ROT(%t, %u) q:\n    RX(%t) q\n    RZ(%u*2) q\n    MEASURE q ro",
